@@ -29,7 +29,7 @@ def hook(ls, op):
         ls.ctx.acc.cls("via:" + op[-1])
         if "update_changed" in ls.flags:
             ls.flags.add("_changed")
-    if "_changed" in ls.flags and op[0] in ("probe", "probe_hit"):
+    if "_changed" in ls.flags and op[0] in ("probe", "probe_hit", "probe_twin"):
         ls.flags.add("probe_after_changing_update")
 
 
